@@ -4,6 +4,8 @@
 // harness: k_gc_drop_b props=C13,C14 kind=bounded tier=thorough timeout=900 obligation=Buffer::gc+trim_scrollback bound="limit 1, 1 row, 3 scrollback lines"
 // harness: k_gc_drop_c props=C13,C14 kind=bounded tier=thorough timeout=900 obligation=Buffer::gc+trim_scrollback bound="limit 2, 1 row, 3 scrollback lines"
 // harness: k_gc_drop_d props=C13,C14 kind=bounded tier=thorough timeout=900 obligation=Buffer::gc+trim_scrollback bound="limit 11, 1 row, 3 scrollback lines (no trim)"
+// harness: k_reflow_1x2_to_1 props=C01,C02,C10 kind=bounded tier=thorough timeout=1800 obligation=reflow/E1,E2,E3+logical text preserved bound="1 line of width 2 -> width 1"
+// harness: k_reflow_2x1_to_2 props=C01,C02,C10 kind=bounded tier=thorough timeout=1800 obligation=reflow/E1,E2,E3+logical text preserved bound="2 lines of width 1 -> width 2"
 // harness: k_reflow_2x2_to_1 props=C01,C02,C10 kind=bounded tier=thorough timeout=1800 obligation=reflow/E1,E2+logical text preserved bound="2 lines of width 2 -> width 1, cells from {blank, a}, symbolic wrap marks"
 // harness: k_reflow_2x2_to_3 props=C01,C02,C10 kind=bounded tier=thorough timeout=1800 obligation=reflow/E1,E2+logical text preserved bound="2 lines of width 2 -> width 3"
 // harness: k_reflow_3x1_to_2 props=C01,C02,C10 kind=bounded tier=thorough timeout=1800 obligation=reflow/E1,E2+logical text preserved bound="3 lines of width 1 -> width 2"
@@ -142,32 +144,56 @@ mod verif_kani_buffer {
     }
 
     /// logical text of a sequence of rows: rows joined while wrapped; trailing blanks of each
-    /// logical line dropped; returned as a flat vector with '\n' separators
-    fn logical(lines: &[Line]) -> Vec<char> {
-        let mut out: Vec<char> = Vec::new();
-        let mut cur: Vec<char> = Vec::new();
+    /// logical line dropped; written into a fixed buffer with '\n' separators (no allocation:
+    /// Vec<char> pushes and comparisons dominated the CBMC cost)
+    struct Text {
+        buf: [char; 24],
+        len: usize,
+    }
+
+    fn logical(lines: &[Line]) -> Text {
+        let mut t = Text { buf: ['\0'; 24], len: 0 };
+        let mut pending = 0; // blanks seen since the last non-blank of the current logical line
         let mut i = 0;
         while i < lines.len() {
             let mut c = 0;
             while c < lines[i].cells.len() {
-                cur.push(lines[i].cells[c].char());
+                let ch = lines[i].cells[c].char();
+                if ch == ' ' {
+                    pending += 1;
+                } else {
+                    while pending > 0 {
+                        t.buf[t.len] = ' ';
+                        t.len += 1;
+                        pending -= 1;
+                    }
+                    t.buf[t.len] = ch;
+                    t.len += 1;
+                }
                 c += 1;
             }
             if !lines[i].wrapped {
-                while !cur.is_empty() && cur[cur.len() - 1] == ' ' {
-                    cur.pop();
-                }
-                let mut k = 0;
-                while k < cur.len() {
-                    out.push(cur[k]);
-                    k += 1;
-                }
-                out.push('\n');
-                cur.clear();
+                pending = 0;
+                t.buf[t.len] = '\n';
+                t.len += 1;
             }
             i += 1;
         }
-        out
+        t
+    }
+
+    fn same_text(a: &Text, b: &Text) -> bool {
+        if a.len != b.len {
+            return false;
+        }
+        let mut i = 0;
+        while i < a.len {
+            if a.buf[i] != b.buf[i] {
+                return false;
+            }
+            i += 1;
+        }
+        true
     }
 
     /// one concrete geometry, symbolic cells ({blank, 'a'}) and wrap marks: every output line has
@@ -184,10 +210,30 @@ mod verif_kani_buffer {
         assert!(out.len() >= 1);
         assert!(!out[out.len() - 1].wrapped);
         let after = logical(&out);
-        assert!(before == after);
+        assert!(same_text(&before, &after));
+        // reflow/E3 (assumed by Buffer::resize's proof): the number of logical lines is kept
+        let mut ends_in = 0;
+        let mut ends_out = 0;
+        let mut k = 0;
+        while k < before.len {
+            if before.buf[k] == '\n' { ends_in += 1; }
+            k += 1;
+        }
+        k = 0;
+        while k < after.len {
+            if after.buf[k] == '\n' { ends_out += 1; }
+            k += 1;
+        }
+        assert!(ends_in == ends_out);
         kani::cover!(out.len() != n);
     }
 
+    #[kani::proof]
+    #[kani::unwind(10)]
+    fn k_reflow_1x2_to_1() { reflow_case(1, 2, 1) }
+    #[kani::proof]
+    #[kani::unwind(10)]
+    fn k_reflow_2x1_to_2() { reflow_case(2, 1, 2) }
     #[kani::proof]
     #[kani::unwind(10)]
     fn k_reflow_2x2_to_1() { reflow_case(2, 2, 1) }
@@ -235,7 +281,7 @@ mod verif_kani_buffer {
             nfirst -= 1;
         }
         let above_after = logical(&b.lines[..nfirst]);
-        assert!(above_before == above_after);
+        assert!(same_text(&above_before, &above_after));
     }
 
     #[kani::proof]
